@@ -84,6 +84,38 @@ def _standin(rep, tier, seed, only_search=False):
                         return
         if len(samples) < 2 and na + nb <= 8:
             samples.append({"dgm1": A, "dgm2": B})
+    # all scales and shifts: dyadic diagrams moved far along the diagonal (2^20 .. 2^40) or rescaled by powers of two (2^-40 .. 2^30).
+    # Every coordinate, difference and half-difference stays exactly representable, so the bottleneck distance must transform
+    # exactly and the Wasserstein distance up to the rounding of its square roots and sums - no tolerance may depend on the magnitude.
+    for it in range(25 if tier == "quick" else 400):
+        mk = lambda k: [[b, b + rng.choice([0.25, 0.5, 1.0, 1.75, 3.0, 5.5, 9.0])] for b in (rng.randint(0, 24) * 0.25 for _ in range(k))]
+        A, B = mk(rng.randint(1, 6)), mk(rng.randint(0, 6))
+        for kind, fn in (("inf", "bottleneck"), ("2", "wasserstein")):
+            d = _d(kind, A, B)
+            rel = 0.0 if kind == "inf" else 1e-12
+            for c in (2.0 ** 20, 2.0 ** 30, -(2.0 ** 25), 2.0 ** 40):
+                got = _d(kind, [[p[0] + c, p[1] + c] for p in A], [[p[0] + c, p[1] + c] for p in B])
+                evals += 1
+                distinct.add((fn, "far-shift", c))
+                # bottleneck: only differences of coordinates enter - exact.  Wasserstein rotates the coordinates before subtracting:
+                # rounding proportional to the magnitude of the coordinates is inherent to that evaluation (64 ulp of |c| per point)
+                slack = 0.0 if kind == "inf" else 64 * 2.3e-16 * abs(c) * (len(A) + len(B) + 2)
+                if abs(got - d) > rel * max(d, 1.0) + slack:
+                    rep.violation("%s law 'shift' fails: translating both diagrams by %r along the diagonal changes the distance from %r to %r (%s, %s)" % (fn, c, d, got, A, B),
+                                  "%s:law:shift" % fn, {"input": {"dgm1": A, "dgm2": B, "shift": c}, "observed": got, "expected": d, "law": "shift", "fn": fn})
+                    if only_search:
+                        return
+                    break
+            for lam in (2.0 ** -40, 2.0 ** -30, 2.0 ** -10, 2.0 ** 30):
+                got = _d(kind, [[lam * p[0], lam * p[1]] for p in A], [[lam * p[0], lam * p[1]] for p in B])
+                evals += 1
+                distinct.add((fn, "far-scale", lam))
+                if abs(got - lam * d) > rel * lam * max(d, 1.0):
+                    rep.violation("%s law 'scale' fails: rescaling both diagrams by %r gives %r, expected %r (%s, %s)" % (fn, lam, got, lam * d, A, B),
+                                  "%s:law:scale" % fn, {"input": {"dgm1": A, "dgm2": B, "scale": lam}, "observed": got, "expected": lam * d, "law": "scale", "fn": fn})
+                    if only_search:
+                        return
+                    break
     if not only_search:
         rep.bounded("metric-and-invariance-laws", "%d random triples with sizes in %s (incl. noisy copies and lattice diagrams)" % (n, sizes), evals, len(distinct),
                     "distinct = (distance, law, sizes); laws: >=0, symmetry, zero on reorder, triangle, diagonal points, diagonal shift, scaling, empty-diagram formulas, bottleneck <= Wasserstein",
